@@ -50,6 +50,8 @@ type Scenario struct {
 	// ShutdownAt > 0: Shutdown is called at that virtual time (quiescent
 	// clock); otherwise as soon as every caller has enqueued or returned.
 	ShutdownAt time.Duration
+	// ShutdownTimeout > 0: Shutdown is called with a context whose (virtual) deadline is that far away
+	ShutdownTimeout time.Duration
 	Bound      int // preemption bound override (0: tier default)
 	ZeroBound  bool
 	QZero      bool // quick tier: bound 0 (thorough: TB / default)
@@ -429,7 +431,13 @@ func (w *World) Main() {
 			return true
 		})
 		w.shutdownCallStep = vs.Cur().Step()
-		_ = w.shutdown(context.Background())
+		sctx := context.Background()
+		if sc.ShutdownTimeout > 0 {
+			var cancel context.CancelFunc
+			sctx, cancel = vcontext.WithTimeout(sctx, sc.ShutdownTimeout)
+			defer cancel()
+		}
+		_ = w.shutdown(sctx)
 		w.shutdownReturned = true
 		w.shutdownStep = vs.Cur().Step()
 		w.atShutdownReturn()
